@@ -148,7 +148,7 @@ fn replace_leaves(v: &Value, path: &mut Vec<String>, out: &mut Vec<(String, Valu
         _ => {
             // a string leaf keeps its byte length but loses its ASCII-ness (passes `len() == n` guards of hand-written deserialisers)
             if let Value::String(orig) = v { if orig.len() >= 2 && orig.is_ascii() {
-                for (k, wide) in [(2usize, "\u{e9}"), (3, "\u{20ac}"), (4, "\u{1f600}")] { if orig.len() >= k { for at in [0usize, 1, orig.len() - k] { if at + k <= orig.len() {
+                for (k, wide) in [(2usize, "\u{e9}"), (3, "\u{20ac}"), (4, "\u{1f600}")] { if orig.len() >= k { for at in (0..=(orig.len() - k).min(12)).chain(std::iter::once(orig.len() - k)) { if at + k <= orig.len() {
                     let alt = format!("{}{}{}", &orig[..at], wide, &orig[at + k..]);
                     let mut r = root.clone(); let mut cur = &mut r;
                     for p in path.iter() { cur = if cur.is_array() { cur.get_mut(p.parse::<usize>().unwrap()).unwrap() } else { cur.get_mut(p.as_str()).unwrap() }; }
@@ -219,6 +219,29 @@ fn child(ctx: &Ctx, k: usize, n: usize) -> i32 {
                 t.evals += 2;
                 with_mt!(mt, T => { match guarded(|| serde_json::from_value::<swift_mt_message::SwiftMessage<T>>(jj.clone())) { Ok(Ok(m)) => on_message(&m, &jj.to_string(), &mut t, &format!("MT{mt}:from_value")), Ok(Err(_)) => {}, Err(l) => t.panic(&format!("MT{mt}:from_value"), &l, &format!("{path}: {jj}")) } }, else => {});
                 if let Err(l) = guarded(|| plugins::publish_mt(&jj)) { t.panic("plugin::publish_mt", &l, &format!("{path}: {jj}")); }
+            }
+        }
+    }
+    // (d') the same JSON sweeps under a field that carries one of its other canonical instances (code words, maximal
+    // forms ...): only the leaves of that field are replaced
+    for mt in MT_CODES {
+        let (msgs, _) = corpus(mt, 0, 10);
+        let Some(base) = msgs.iter().filter(|m| m.base == "max").max_by_key(|m| m.occs.len()).or(msgs.first()) else { continue };
+        let toks = base.toks();
+        for (pos, o) in base.occs.iter().enumerate() {
+            let Some(kd) = crate::spec::m1::kind(&o.kind) else { continue };
+            for (_, inst) in (kd.insts)().into_iter().skip(1) {
+                if !mine() { continue; }
+                let mut tk = toks.clone(); tk[pos].content = inst;
+                let full = spec::envelope_full(mt, &crate::common::tok::render_lf(&tk));
+                let Some(j) = with_mt!(mt, T => SwiftParser::parse::<T>(&full).ok().and_then(|m| serde_json::to_value(&m).ok()), else => None) else { continue };
+                let mut cases = vec![]; replace_leaves(&j, &mut vec![], &mut cases, &j);
+                let tagkey = format!(".{}", o.tag);
+                for (path, jj) in cases {
+                    if !format!(".{path}").contains(&tagkey) { continue; }
+                    t.evals += 1;
+                    with_mt!(mt, T => { match guarded(|| serde_json::from_value::<swift_mt_message::SwiftMessage<T>>(jj.clone())) { Ok(Ok(m)) => on_message(&m, &jj.to_string(), &mut t, &format!("MT{mt}:from_value")), Ok(Err(_)) => {}, Err(l) => t.panic(&format!("MT{mt}:from_value"), &l, &format!("{path}: {jj}")) } }, else => {});
+                }
             }
         }
     }
